@@ -71,7 +71,7 @@ def gen_curves(ctx):
         spacing, ks = cr.gen_keys(rng, n)
         vclass, ys = cr.gen_values(rng, n)
         rule = rng.choice([0, 0, 1, 1, 2, 2, 3, 4]) if rng.random() > 0.03 else 5
-        path = rng.choice([0, 1])
+        path = rng.choice([0, 1, 2])
         order = list(range(n))
         rng.shuffle(order)
         sorted_supply = order == sorted(order)
@@ -89,7 +89,7 @@ def gen_curves(ctx):
         qs = cr.query_dates(rng, ks)
         acts = []
         for x in qs:
-            if path == 0:
+            if path in (0, 2):
                 acts.append(cr.act_index(x))
             acts.append(cr.act_value(x))
             ctx.count("query " + cr.classify_query(ks, x))
@@ -98,7 +98,8 @@ def gen_curves(ctx):
         weights.append(len(acts))
         keysets.append((ks, rule))
         ctx.count("rule " + cr.RULES[rule])
-        ctx.count("constructor " + ("CurveDF::try_new" if path == 0 else "Python-facing Curve"))
+        ctx.count("constructor " + ("CurveDF::try_new" if path == 0 else "Python-facing Curve" if path == 1 else
+                                    "CurveDF::try_new, then saved and loaded from a document listing the nodes in supply order"))
         ctx.count("nodes %d" % n)
         ctx.count("spacing " + spacing)
         ctx.count("values " + vclass)
